@@ -25,9 +25,21 @@ One scenario:
   6. REFIT of the same estimator object on other data of the same shape, transforms of A and B, compared with a fresh
      estimator fitted on the new data only (model and outputs);
   after EVERY call (returning or raising): all snapshots are compared, TMPDIR, cachedir and the working directory are
-  listed recursively.
+  listed recursively, and the estimator's constructor parameters (get_params(deep=False); the constructor-named
+  attributes where get_params raises) are compared with their values right after construction.
+
+Sizes.  Every table with a random_state and an SVD / mixture inside has, beside the tiny cells, "big" cells (size=big:
+40-60 rows, n_components 2-3, a vector / LOT dimension above n_components + 10, memory_size giving 2-4 blocks of at least
+n_components + 12 rows) at which sklearn's randomized_svd is NOT exact, so that a generator that is not the seeded one
+shows in "two fits give the same model".  The child records every randomized_svd / svds call (exact or not) per cell,
+and numpy's and Python's global generators are seeded per cell and advanced by unrelated draws before every call.
+
+Keywords.  Where transform accepts **kwargs or y (read from the signature), the history ends with a keyword phase
+  S+kw, A, A+kw, S, B       (S the shortest pool input, +kw: keywords describing THAT input - its number of rows under
+the names the library uses for such hints, the vector dimension, a y of that length)
+and every output is compared with the single call (same keywords) on an untouched deep copy of the fitted estimator.
 """
-import copy, json, os, sys, tempfile, traceback, types, warnings, zlib
+import copy, inspect, json, os, random, sys, tempfile, traceback, types, warnings, zlib
 warnings.filterwarnings("ignore")
 import numpy as np
 import scipy.sparse as sp
@@ -45,6 +57,33 @@ TOL = 1e-9          # "to 1e-9": max |a - b| <= TOL * max(1, max |b|)
 import functools
 import vectorizers.ngram_token_cooccurence_vectorizer as _NGC
 _NGC.make_tuple_converter = functools.lru_cache(maxsize=None)(_NGC.make_tuple_converter)
+
+# Evidence only: every call of the SVD solvers is counted (the modules look the names up at call time).  sklearn's
+# randomized_svd is EXACT when n_components + n_oversamples >= min(shape) (the range finder spans everything): only the
+# "non_exact" calls can show a generator that is not the seeded one, and the parent demands them in the big cells.
+import vectorizers.transformers.count_feature_compression as _CFC
+SVD_LOG = {"randomized_non_exact": 0, "randomized_exact": 0, "arpack": 0}
+
+
+def _count_randomized(orig):
+    def randomized_svd(M, *a, **k):
+        nc = a[0] if a else k["n_components"]
+        over = k.get("n_oversamples", 10)
+        SVD_LOG["randomized_non_exact" if min(M.shape) > nc + over else "randomized_exact"] += 1
+        return orig(M, *a, **k)
+    return randomized_svd
+
+
+def _count_arpack(orig):
+    def svds(*a, **k):
+        SVD_LOG["arpack"] += 1
+        return orig(*a, **k)
+    return svds
+
+
+LOT.randomized_svd = _count_randomized(LOT.randomized_svd)
+_CFC.randomized_svd = _count_randomized(_CFC.randomized_svd)
+_CFC.svds = _count_arpack(_CFC.svds)
 
 
 class GenOf:
@@ -239,6 +278,26 @@ def rotate(cells, seed, **dims):
         for i, c in enumerate(cells):
             c[k] = vals[(i + i // len(vals) + off) % len(vals)]      # (the i // len term decorrelates it from the primary dimensions)
     return cells
+
+
+def with_big(cells, big, seed):
+    """the tiny cells get size=tiny; the cells of `big` (size=big) are appended, the primary dimensions they lack are
+    walked cyclically from the seed.  svd_iter (the number of power iterations of the randomised SVD, None = the
+    library's default in the tiny cells) alternates 0, 1 along `big`, whose LAST dimension has two values: of the two
+    cells that differ in it only, one has no power iteration at all (the random range finder is all there is)."""
+    keys = {k: [] for c in cells for k in c}
+    for c in cells:
+        for k, v in c.items():
+            if v not in keys[k]:
+                keys[k].append(v)
+    out = [dict(c, size="tiny", svd_iter=None) for c in cells]
+    for i, c in enumerate(big):
+        c = dict(c, size="big", svd_iter=(i + seed) % 2)
+        for j, (k, vals) in enumerate(sorted(keys.items())):
+            if k not in c:
+                c[k] = vals[(i + seed + j) % len(vals)]
+        out.append(c)
+    return out
 
 
 OUTER = {"list": list, "tuple": tuple, "ndarray_obj": obj_array, "series": lambda x: pd.Series(list(x))}
@@ -580,7 +639,7 @@ DIST_CONT = {"list_arr": lambda v: list(v), "tuple_arr": lambda v: tuple(v), "nd
 
 
 def cells_distribution(seed):
-    return rotate([{}], seed, cont=list(DIST_CONT), use_ft=[False, True])
+    return rotate(cross(size=["tiny", "big"]), seed, cont=list(DIST_CONT), use_ft=[False, True])
 
 
 def sc_distribution(rng, cell, fx):
@@ -588,10 +647,11 @@ def sc_distribution(rng, cell, fx):
     names = list(DIST_CONT)
     c0 = names.index(cell["cont"])
     cont = lambda j: DIST_CONT[names[(c0 + j) % len(names)]]
-    D, A = points(rng, 5, size=10), points(rng, 3, size=9)
+    # big: a few dozen point clouds (the mixture's EM and its k-means start really iterate)
+    D, A = points(rng, int(rng.randint(40, 61)) if cell["size"] == "big" else 5, size=10), points(rng, 3, size=9)
     B = [a[::-1] * 0.5 + 0.25 for a in A]
     pool = [freeze((cont(1)(A), {})), freeze((cont(1)(B), {})), freeze((cont(2)(D[:2]), {})), freeze((cont(3)(A), {})), freeze((cont(4)(B), {}))]
-    return Scenario(V.DistributionVectorizer, "DistributionVectorizer(%r) cont:%s" % (kw, cell["cont"]), freeze(kw), freeze((cont(0)(D), {})), pool,
+    return Scenario(V.DistributionVectorizer, "DistributionVectorizer(%r) cont:%s clouds=%d" % (kw, cell["cont"], len(D)), freeze(kw), freeze((cont(0)(D), {})), pool,
                     seeded=True, refit_data=freeze((cont(0)([d * 1.5 - 0.5 for d in D]), {})), use_ft=cell["use_ft"],
                     poison=lambda: ([np.zeros((3, 2)), "nope"], {}))
 
@@ -772,14 +832,14 @@ def rot(names, start, j):
     return names[(names.index(start) + j) % len(names)]
 
 
-def ot_sparse_data(rng, cell, n_cols, dim, n_rows, with_vec_kw=True, zero_row=False):
+def ot_sparse_data(rng, cell, n_cols, dim, n_rows, with_vec_kw=True, zero_row=False, na=None):
     """fit data, pool, refit data, poison for the estimators that take (matrix, vectors=...)"""
     fmt = lambda j: rot(OT_FMT, cell["fmt"], j)
     vec = lambda j: VEC[rot(list(VEC), cell["vec"] if cell["vec"] in VEC else "f64", j)]
     V1, V2, V3 = rng.normal(size=(n_cols, dim)), rng.normal(size=(n_cols, dim)), rng.normal(size=(n_cols, dim))
     X = ot_dense(rng, n_rows, n_cols, zero_row=zero_row)
     X2 = ot_dense(rng, n_rows, n_cols)
-    na = int(rng.randint(6, 10))
+    na = na or int(rng.randint(6, 10))
     XA, XB, XC = ot_dense(rng, na, n_cols), ot_dense(rng, na, n_cols), ot_dense(rng, int(rng.randint(2, 5)), n_cols)
     kwv = (lambda v: {"vectors": v}) if with_vec_kw else (lambda v: {})
     fitd = freeze((mat_fmt(X, fmt(0)), {"vectors": VEC_FIT[cell["vec"]](V1)}))
@@ -804,23 +864,62 @@ LIL_X = {"list": list, "tuple": tuple, "typedlist": lambda d: numba.typed.List(d
 LIL_V = {"list": list, "tuple": tuple}
 
 
+W_PATHS = ["spmatrix/LOT_exact", "spmatrix/LOT_sinkhorn", "spmatrix/HeuristicLinearAlgebra", "lil/LOT_exact", "generator/LOT_exact"]
+
+
 def cells_wasserstein(seed):
-    cells = cross(path=["spmatrix/LOT_exact", "spmatrix/LOT_sinkhorn", "spmatrix/HeuristicLinearAlgebra", "lil/LOT_exact", "generator/LOT_exact"],
-                  memory=["small", "2G"], cachedir=[None, "CACHEDIR"], metric=["cosine", "euclidean"])
+    cells = cross(path=W_PATHS, memory=["small", "2G"], cachedir=[None, "CACHEDIR"], metric=["cosine", "euclidean"])
+    # sizes at which the randomised SVD is not exact: every path, one block and several blocks, both metrics
+    cells = with_big(cells, cross(path=W_PATHS, memory=["small", "2G"], metric=["cosine", "euclidean"]), seed)
     return rotate(cells, seed, fmt=OT_FMT, vec=list(VEC_FIT), ref=["default", "given"],
                   use_ft=[False, True], fault=["svd", "internal", "badref"], lilx=list(LIL_X), lilv=list(LIL_V))
 
 
+def ot_sizes(rng, cell, method, uniform=False):
+    """(n_cols, dim, ref, n_rows, n_components, block rows, memory_size, rows of the pool inputs A / B, n_svd_iter).
+    tiny: reference 3 x dim 2-3, blocks of 3 rows (a size below one row divides by zero in transform: not C13's).
+    big: 40-60 rows, LOT coordinates of rank >= 15 (reference 5 x dim 4-5, one less per reference point on the sphere;
+    dim 16 for the linear-algebra heuristic, whose SVD sees rows x dim), n_components 2-3, so that
+    n_components + 10 oversamples < min(rows of a block, rank): randomized_svd is really randomised, and 0 or 1 power
+    iterations (n_svd_iter = the cell's svd_iter; with the default 7-10, and on the smooth Sinkhorn vectors already
+    with 2, it converges to the exact SVD to ~1e-9 on such small matrices and the random start is forgotten - tiny
+    cells keep the default); memory_size gives
+    blocks of b rows, n_components + 12 <= b <= rows / 2, i.e. at least two full blocks.
+    uniform (generator input under the cosine metric only): the library hands each chunk of a stream to numba as a
+    TUPLE of arrays there, and numba compiles the kernel anew for every tuple length (3-7 s each), so these cells use
+    few distinct lengths: rows a multiple of the block, 18 rows in blocks of 3 or 48 rows in blocks of 16 (the ragged
+    last block is covered by the euclidean cells, where the chunks are typed lists)."""
+    metric = cell["metric"]
+    if cell.get("size") == "big":
+        n_cols, dim, ref = (20, 16, 5) if method in ("HeuristicLinearAlgebra", "approx") else (12, int(rng.randint(4, 7)), 5)
+        n_rows = int(rng.randint(40, 61))
+        ncomp = int(rng.randint(2, 4))
+        b = int(rng.randint(ncomp + 12, n_rows // 2 + 1))
+        niter = cell["svd_iter"]
+    else:
+        n_cols, dim, ref = 6, int(rng.randint(2, 4)), 3
+        n_rows = int(rng.randint(14, 20))
+        ncomp = ot_components(rng, metric, method, ref, dim)
+        b, niter = 3, None
+    if uniform:
+        n_rows, b = (48, 16) if cell.get("size") == "big" else (18, 3)
+    if cell.get("memory") == "small":
+        mem, block = str(ref * dim * 8 * b + ref * dim * 8 - 8), b           # one row of LOT coordinates takes ref * dim * 8 bytes
+        na = b + int(rng.randint(3, 7))                                      # ... and every transform of A / B takes >= 2 blocks
+    else:
+        mem, block, na = "2G", 10 ** 9, int(rng.randint(6, 10))
+    return n_cols, dim, ref, n_rows, ncomp, block, mem, na, niter
+
+
 def sc_wasserstein(rng, cell, fx):
     im, method = cell["path"].split("/")
-    n_cols, dim, ref, metric = 6, int(rng.randint(2, 4)), 3, cell["metric"]
-    n_rows = int(rng.randint(14, 20))
-    # one row of LOT coordinates takes ref * dim * 8 bytes: "small" gives blocks of 3-4 rows, i.e. several blocks in
-    # fit and in every transform (a size below one row divides by zero in transform: not C13's)
-    mem = str(ref * dim * 8 * 4 - 8) if cell["memory"] == "small" else "2G"
-    block = (ref * dim * 8 * 4 - 8) // (ref * dim * 8) if cell["memory"] == "small" else 10 ** 9
-    kw = {"input_method": im, "method": method, "n_components": ot_components(rng, metric, method, ref, dim),
+    metric = cell["metric"]
+    uniform = im == "generator" and metric == "cosine"
+    n_cols, dim, ref, n_rows, ncomp, block, mem, na, niter = ot_sizes(rng, cell, method, uniform)
+    kw = {"input_method": im, "method": method, "n_components": ncomp,
           "random_state": int(rng.randint(1000)), "metric": metric, "memory_size": mem}
+    if niter is not None:
+        kw["n_svd_iter"] = niter
     if method != "HeuristicLinearAlgebra":
         kw["reference_size"] = ref
     if cell["cachedir"]:
@@ -838,22 +937,22 @@ def sc_wasserstein(rng, cell, fx):
         fault = {"svd": ("svd", int(rng.randint(1, min(nb_fit, 3) + 1))),
                  "internal": ("internal:" + internal, int(rng.randint(1, min(nb_fit, 3) + 1))),
                  "badref": ("badref", 0), "gen": ("gen", int(rng.randint(1, n_rows)))}[kind]
-    desc = "WassersteinVectorizer(%r) rows=%d X:%s vectors:%s ref:%s" % (kw, n_rows, cell["fmt"] if im == "spmatrix" else cell["lilx"],
-                                                                             cell["vec"] if im == "spmatrix" else cell["lilv"], "given" if given else "default")
+    tr_blocks = 2 if cell["memory"] == "small" else 1
+    desc = "WassersteinVectorizer(%r) rows=%d block=%s X:%s vectors:%s ref:%s" % (kw, n_rows, block if block < 10 ** 9 else "all", cell["fmt"] if im == "spmatrix" else cell["lilx"],
+                                                                                   cell["vec"] if im == "spmatrix" else cell["lilv"], "given" if given else "default")
     if im == "spmatrix":
-        fitd0, pool, refit0, poison = ot_sparse_data(rng, cell, n_cols, dim, n_rows, zero_row=False)
+        fitd0, pool, refit0, poison = ot_sparse_data(rng, cell, n_cols, dim, n_rows, zero_row=False, na=na)
         extra = refkw() if given else {}
         extra2 = refkw() if given else {}
         fitd = lambda: (lambda Xk: (Xk[0], dict(Xk[1], **copy.deepcopy(extra))))(fitd0())
         refit = lambda: (lambda Xk: (Xk[0], dict(Xk[1], **copy.deepcopy(extra2))))(refit0())
         return Scenario(V.WassersteinVectorizer, desc, freeze(kw), fitd, pool, poison=poison, seeded=True, fault=fault,
-                        fault_tr=internal, refit_data=refit, use_ft=cell["use_ft"], tr_blocks=2 if cell["memory"] == "small" else 1)
+                        fault_tr=internal, refit_data=refit, use_ft=cell["use_ft"], tr_blocks=tr_blocks)
     sizes = rng.randint(2, 6, size=n_rows)
     d, v = ot_lil(rng, n_rows, dim, sizes)
     d2, v2 = ot_lil(rng, n_rows, dim, sizes)
     if im == "lil":
         cx, cv = LIL_X[cell["lilx"]], LIL_V[cell["lilv"]]
-        na = int(rng.randint(6, 10))
         sa = rng.randint(2, 6, size=na)
         (dA, vA), (dB, vB), (dC, vC) = ot_lil(rng, na, dim, sa), ot_lil(rng, na, dim, sa), ot_lil(rng, 3, dim)
         extra = refkw() if given else {}
@@ -864,7 +963,7 @@ def sc_wasserstein(rng, cell, fx):
         refit = mk(d2, v2, e=extra)
         return Scenario(V.WassersteinVectorizer, desc, freeze(kw), fitd, pool, seeded=True, fault=fault, fault_tr=internal,
                         poison=lambda: ([np.ones(2), "nope"], {"vectors": [np.zeros((2, dim)), np.zeros((2, dim))]}),
-                        refit_data=refit, use_ft=cell["use_ft"], tr_blocks=2 if cell["memory"] == "small" else 1)
+                        refit_data=refit, use_ft=cell["use_ft"], tr_blocks=tr_blocks)
     kw["generator_vector_dim"] = dim
     kw["generator_n_distributions"] = n_rows
     kw.pop("reference_size", None)
@@ -873,43 +972,52 @@ def sc_wasserstein(rng, cell, fx):
     g = lambda dd, vv: freeze((GenOf(dd), {"vectors": GenOf(vv)}))
     fitd = freeze((GenOf(d), dict({"vectors": GenOf(v)}, **extra)))
     refit = freeze((GenOf(d2), dict({"vectors": GenOf(v2)}, **extra)))
-    pool = [g(d, v), g(dB, vB), g(d, vB), g(dC, vC)]
-    desc = "WassersteinVectorizer(%r) rows=%d generators" % (kw, n_rows)
+    # streams as long as generator_n_distributions says, and shorter ones (reading stops when the stream ends)
+    ns = max(2, n_rows // 3)
+    ns2 = n_rows if uniform else ns + 1
+    pool = [g(d, v), g(dB, vB), g(d, vB), g(dC[:ns], vC[:ns]), g(dC, vC), g(dB[:ns2], vB[:ns2])]
+    desc = "WassersteinVectorizer(%r) rows=%d block=%s generators" % (kw, n_rows, block if block < 10 ** 9 else "all")
     return Scenario(V.WassersteinVectorizer, desc, freeze(kw), fitd, pool, seeded=True, fault=fault, fault_tr=internal,
-                    refit_data=refit, use_ft=cell["use_ft"], tr_blocks=2 if cell["memory"] == "small" else 1)
+                    refit_data=refit, use_ft=cell["use_ft"], tr_blocks=tr_blocks)
 
 
 def cells_sinkhorn(seed):
     cells = cross(memory=["small", "2G"], cachedir=[None, "CACHEDIR"], metric=["cosine", "euclidean"])
+    cells = with_big(cells, cross(memory=["small", "2G"], metric=["cosine", "euclidean"]), seed)
     return rotate(cells, seed, fmt=OT_FMT, vec=list(VEC_FIT), use_ft=[False, True], fault=["svd", "internal"])
 
 
 def sc_sinkhorn(rng, cell, fx):
-    n_cols, dim, ref, metric = 6, int(rng.randint(2, 4)), 3, cell["metric"]
-    n_rows = int(rng.randint(12, 18))
-    mem = str(ref * dim * 8 * 4 - 8) if cell["memory"] == "small" else "2G"
-    kw = {"n_components": ot_components(rng, metric, "LOT_sinkhorn", ref, dim), "random_state": int(rng.randint(1000)),
+    metric = cell["metric"]
+    n_cols, dim, ref, n_rows, ncomp, block, mem, na, niter = ot_sizes(rng, cell, "LOT_sinkhorn")
+    kw = {"n_components": ncomp, "random_state": int(rng.randint(1000)),
           "reference_size": ref, "metric": metric, "memory_size": mem}
+    if niter is not None:
+        kw["n_svd_iter"] = niter
     if cell["cachedir"]:
         kw["cachedir"] = "CACHEDIR"
-    fitd, pool, refit, poison = ot_sparse_data(rng, cell, n_cols, dim, n_rows)
-    k = int(rng.randint(1, 4 if cell["memory"] == "small" else 2))
+    fitd, pool, refit, poison = ot_sparse_data(rng, cell, n_cols, dim, n_rows, na=na)
+    k = int(rng.randint(1, min(n_rows // block + 1, 3) + 1))
     fault = ("svd", k) if cell["fault"] == "svd" else ("internal:sinkhorn_vectors_sparse_internal", k)
-    return Scenario(V.SinkhornVectorizer, "SinkhornVectorizer(%r) rows=%d X:%s vectors:%s" % (kw, n_rows, cell["fmt"], cell["vec"]), freeze(kw),
+    return Scenario(V.SinkhornVectorizer, "SinkhornVectorizer(%r) rows=%d block=%s X:%s vectors:%s" % (kw, n_rows, block if block < 10 ** 9 else "all", cell["fmt"], cell["vec"]), freeze(kw),
                     fitd, pool, poison=poison, seeded=True, fault=fault, fault_tr="sinkhorn_vectors_sparse_internal",
                     refit_data=refit, use_ft=cell["use_ft"], tr_blocks=2 if cell["memory"] == "small" else 1)
 
 
 def cells_approxw(seed):
-    return rotate(cross(power=[1.0, 0.5], fmt=OT_FMT), seed, vec=list(VEC_FIT), use_ft=[False, True])
+    cells = with_big(cross(power=[1.0, 0.5], fmt=OT_FMT), cross(power=[1.0, 0.5, 1.0, 0.5]), seed)      # (the format of the big cells walks on)
+    return rotate(cells, seed, vec=list(VEC_FIT), use_ft=[False, True])
 
 
 def sc_approxw(rng, cell, fx):
-    n_cols, dim = 6, int(rng.randint(2, 4))
-    kw = {"n_components": ot_components(rng, "euclidean", "approx", 0, dim), "random_state": int(rng.randint(1000)),
-          "normalization_power": cell["power"]}
-    fitd, pool, refit, poison = ot_sparse_data(rng, cell, n_cols, dim, int(rng.randint(8, 14)), with_vec_kw=False)
-    return Scenario(V.ApproximateWassersteinVectorizer, "ApproximateWassersteinVectorizer(%r) X:%s vectors:%s" % (kw, cell["fmt"], cell["vec"]),
+    n_cols, dim, _, n_rows, ncomp, _, _, _, niter = ot_sizes(rng, dict(cell, metric="euclidean"), "approx")
+    if cell["size"] != "big":
+        n_rows = int(rng.randint(8, 14))
+    kw = {"n_components": ncomp, "random_state": int(rng.randint(1000)), "normalization_power": cell["power"]}
+    if niter is not None:
+        kw["n_svd_iter"] = niter
+    fitd, pool, refit, poison = ot_sparse_data(rng, cell, n_cols, dim, n_rows, with_vec_kw=False)
+    return Scenario(V.ApproximateWassersteinVectorizer, "ApproximateWassersteinVectorizer(%r) rows=%d dim=%d X:%s vectors:%s" % (kw, n_rows, dim, cell["fmt"], cell["vec"]),
                     freeze(kw), fitd, pool, poison=poison, seeded=True, refit_data=refit, use_ft=cell["use_ft"])
 
 
@@ -935,8 +1043,8 @@ def mirror(M):
     return M
 
 
-def matrix_like(cls, name, kw, rng, cell, fit_fmts, pool_fmts, fit_kw=None, seeded=False, n_cols=None, strict_shape=False):
-    n_rows, n_cols = int(rng.randint(6, 10)), n_cols or int(rng.randint(4, 7))
+def matrix_like(cls, name, kw, rng, cell, fit_fmts, pool_fmts, fit_kw=None, seeded=False, n_cols=None, strict_shape=False, n_rows=None):
+    n_rows, n_cols = n_rows or int(rng.randint(6, 10)), n_cols or int(rng.randint(4, 7))
     ff = lambda j: rot(fit_fmts, cell["fmt"], j)
     pf = lambda j: rot(pool_fmts, cell["fmt"], j)
     X, X2 = count_dense(rng, n_rows, n_cols), count_dense(rng, n_rows, n_cols)
@@ -947,7 +1055,7 @@ def matrix_like(cls, name, kw, rng, cell, fit_fmts, pool_fmts, fit_kw=None, seed
     pool = [freeze((mat_fmt(A, pf(1)), {})), freeze((mat_fmt(B, pf(1)), {})), freeze((mat_fmt(A, pf(2)), {})),
             freeze((mat_fmt(C, pf(3)), {})), freeze((mat_fmt(X, pf(4)), {})), freeze((mat_fmt(B, pf(5)), {}))]
     fkw = fk()
-    return Scenario(cls, "%s(%r) X:%s%s %s" % (name, kw, cell["fmt"], " y" if fkw else "", cell.get("data", "")), freeze(kw), freeze((mat_fmt(X, ff(0)), fkw)), pool,
+    return Scenario(cls, "%s(%r) X:%dx%d %s%s %s" % (name, kw, n_rows, n_cols, cell["fmt"], " y" if fkw else "", cell.get("data", "")), freeze(kw), freeze((mat_fmt(X, ff(0)), fkw)), pool,
                     seeded=seeded, refit_data=freeze((mat_fmt(X2, ff(3)), fk())), use_ft=cell["use_ft"],
                     poison=(lambda: (mat_fmt(count_dense(rng, 3, n_cols + 2), "csr"), {})) if strict_shape else (lambda: ("not a matrix", {})))
 
@@ -983,13 +1091,19 @@ CFC_FIT = ["csr", "csc", "coo", "dia", "bsr", "csr_unsorted", "csc_unsorted", "c
 
 
 def cells_cfc(seed):
-    return rotate(cross(algorithm=["randomized", "arpack"], fmt=CFC_FIT), seed, use_ft=[False, True], data=["random", "mirror"])
+    # big: 40-60 rows x 16-20 columns, n_components 2-3: randomized_svd's range finder does not span everything
+    cells = with_big(cross(algorithm=["randomized", "arpack"], fmt=CFC_FIT), cross(algorithm=["randomized", "randomized", "arpack", "arpack"]), seed)
+    return rotate(cells, seed, use_ft=[False, True], data=["random", "mirror"])
 
 
 def sc_cfc(rng, cell, fx):
-    kw = {"n_components": 2, "algorithm": cell["algorithm"], "random_state": int(rng.randint(1000))}
+    big = cell["size"] == "big"
+    kw = {"n_components": int(rng.randint(2, 4)) if big else 2, "algorithm": cell["algorithm"], "random_state": int(rng.randint(1000))}
+    if big:
+        kw["n_iter"] = cell["svd_iter"]            # (as in ot_sizes: no or one power iteration, the random start matters)
     return matrix_like(T.CountFeatureCompressionTransformer, "CountFeatureCompressionTransformer", kw, rng, cell, CFC_FIT,
-                       CFC_FIT + ["lil", "dok"], seeded=True, n_cols=int(rng.randint(5, 8)), strict_shape=True)
+                       CFC_FIT + ["lil", "dok"], seeded=True, n_cols=int(rng.randint(16, 21) if big else rng.randint(5, 8)), strict_shape=True,
+                       n_rows=int(rng.randint(40, 61)) if big else None)
 
 
 def seqs(rng, n, size=None):
@@ -1136,11 +1250,100 @@ def mat(o):
     return o.make() if isinstance(o, GenOf) else o
 
 
+_NOISE = [0]
+
+
+def noise():
+    """unrelated draws from numpy's and Python's global generators (a varying number of them): whatever a call takes
+    from a global generator differs from one call to the next"""
+    _NOISE[0] += 1
+    np.random.random_sample(1 + _NOISE[0] % 5)
+    np.random.randint(0, 10, size=1 + _NOISE[0] % 3)
+    for _ in range(1 + _NOISE[0] % 4):
+        random.random()
+
+
 def call(fn, X, kw):
+    noise()
     try:
         return fn(mat(X), **{k: mat(v) for k, v in kw.items()}), None
     except Exception as e:            # an exception is an outcome, compared by class
         return e, traceback.format_exc()[-500:]
+
+
+def ctor_params(est):
+    """the estimator's constructor parameters: get_params(deep=False); where that raises (a constructor that does not
+    keep a parameter under its own name), the attributes named like the constructor's arguments"""
+    try:
+        return "get_params", dict(est.get_params(deep=False))
+    except Exception:
+        names = [n for n, q in inspect.signature(type(est).__init__).parameters.items()
+                 if n != "self" and q.kind not in (q.VAR_KEYWORD, q.VAR_POSITIONAL)]
+        return "constructor attributes", {n: vars(est)[n] for n in names if n in vars(est)}
+
+
+def psnap(v):
+    s = snap(v)
+    return s + (id(v),) if s[0] == "obj" else s          # functions, random states, ...: by identity
+
+
+class ParamWatch:
+    """constructor parameters right after construction vs after every call (values; the objects are kept alive so that
+    an identity cannot be reused)"""
+    def __init__(self, est):
+        self.how, self.keep = ctor_params(est)
+        self.snaps = {k: psnap(v) for k, v in self.keep.items()}
+        self.checks = 0
+
+    def check(self, est, after, out):
+        _, now = ctor_params(est)
+        self.checks += 1
+        for k in sorted(set(now) | set(self.snaps)):
+            s1 = psnap(now[k]) if k in now else ("missing",)
+            s0 = self.snaps.get(k, ("missing",))
+            if s1 != s0:
+                out.append({"kind": "constructor-parameter-changed",
+                            "detail": "%s: parameter %s was %s right after construction and is %s after %s%s"
+                                      % (self.how, k, prepr(self.keep.get(k)), prepr(now.get(k)), after,
+                                         "" if s0[0] == "missing" or s1[0] == "missing" else " (at %s)" % diff_where(s0, s1))})
+                self.snaps[k] = s1                       # report each change once
+                self.keep[k] = now.get(k)
+
+
+def prepr(v):
+    r = repr(v)
+    return r if len(r) <= 60 else r[:57] + "..."
+
+
+def n_items(X):
+    if isinstance(X, GenOf):
+        return len(X.src)
+    if sp.issparse(X) or isinstance(X, np.ndarray):
+        return int(X.shape[0])
+    return len(X)
+
+
+def keyword_hints(est, tr_name, X, kw):
+    """keywords that DESCRIBE the input of one call, for a transform that takes **kwargs and / or y (read from the
+    signature): the number of rows under the names the library uses for such a hint (generator_n_distributions in
+    the constructor, n_distributions in WassersteinVectorizerOld.transform and in the library's own tests), the vector
+    dimension likewise, a y with one entry per row.  The unchanged library ignores all of them."""
+    try:
+        sig = inspect.signature(getattr(type(est), tr_name))
+    except (TypeError, ValueError):
+        return {}
+    n = n_items(X)
+    hints = {}
+    if any(q.kind == q.VAR_KEYWORD for q in sig.parameters.values()):
+        hints.update(n_distributions=n, generator_n_distributions=n)
+        try:
+            d = int(vec_dim(kw["vectors"])) if "vectors" in kw else int(np.shape(est.vectors_)[1])
+            hints.update(vector_dim=d, generator_vector_dim=d)
+        except Exception:
+            pass
+    if "y" in sig.parameters:
+        hints["y"] = np.arange(n) % 2
+    return {k: v for k, v in hints.items() if k not in kw and (k == "y" or k not in sig.parameters)}
 
 
 def mutable_ids(o, acc, depth=0):
@@ -1209,6 +1412,30 @@ class Sabotage:
         return False
 
 
+class Reseed:
+    """the FIRST call of randomized_svd (in the optimal transport module and in the count feature compression module)
+    gets a generator of the harness instead of the one it was given: what a fit would do if that call did not use the
+    estimator's random_state.  Used to show that a cell can tell (evidence), never for a verdict."""
+    def __enter__(self):
+        self.count, self.orig = 0, {m: m.randomized_svd for m in (LOT, _CFC)}
+
+        def wrap(orig):
+            def randomized_svd(M, *a, **k):
+                self.count += 1
+                if self.count == 1:
+                    k["random_state"] = np.random.RandomState(987654321)
+                return orig(M, *a, **k)
+            return randomized_svd
+        for m, o in self.orig.items():
+            m.randomized_svd = wrap(o)
+        return self
+
+    def __exit__(self, *exc):
+        for m, o in self.orig.items():
+            m.randomized_svd = o
+        return False
+
+
 def compare_models(m0, m1, what, viol, suffix=""):
     """every attribute that the reference fit m1 defines has the same value in m0 (attributes that only m0 has were
     assigned by transform calls made on it - RowDenoisingTransformer.mix_weights_ - and are not part of the fit)"""
@@ -1223,6 +1450,10 @@ def run_cell(name, ci, ncells, cell, seed, fx, dirs, base):
     import time
     t0 = time.time()
     rng = np.random.RandomState(zlib.crc32(("%s/%d/%d" % (name, seed, ci)).encode()) % (2 ** 31))
+    # the global generators: a known state per cell (the run is a function of the seed even when a call uses them)
+    np.random.seed(zlib.crc32(("global/%s/%d/%d" % (name, seed, ci)).encode()) % (2 ** 31))
+    random.seed(zlib.crc32(("python/%s/%d/%d" % (name, seed, ci)).encode()))
+    svd0 = dict(SVD_LOG)
     sc = REGISTRY[name][1](rng, cell, fx)
     res = {"est": name, "seed": seed, "cell_index": ci, "n_cells": ncells, "cell": {k: (v if isinstance(v, (str, int, float, bool, type(None))) else repr(v)) for k, v in cell.items()},
            "desc": sc.desc, "calls": 0, "raised": 0, "aliases": [], "violations": [], "checks": {}, "history": []}
@@ -1234,13 +1465,16 @@ def run_cell(name, ci, ncells, cell, seed, fx, dirs, base):
         W.add("constructor parameter %s" % k, v)
     est = sc.cls(**params)
     W.check("the constructor", viol)
+    PW = ParamWatch(est)
 
     def watched_call(what, fn, X, kw):
         out, tb = call(fn, X, kw)
         res["calls"] += 1
         if isinstance(out, Exception):
             res["raised"] += 1
-        W.check(what + (" (raised %s)" % type(out).__name__ if isinstance(out, Exception) else ""), viol)
+        what += " (raised %s)" % type(out).__name__ if isinstance(out, Exception) else ""
+        W.check(what, viol)
+        PW.check(fn.__self__, what, viol)          # (every estimator of a scenario is built from the same parameters)
         return out
 
     def fresh_fit(data_factory):
@@ -1325,9 +1559,18 @@ def run_cell(name, ci, ncells, cell, seed, fx, dirs, base):
         else:
             compare_models(model0, model1, "two-fits-differ", viol,
                            " between two fits%s" % (" with random_state=%r" % params.get("random_state") if sc.seeded else ""))
+            if sc.seeded and cell.get("size") == "big":
+                # evidence: would this cell see one SVD call that does not use the estimator's random_state?
+                with Reseed() as rs:
+                    probe, r = fresh_fit(sc.fit_data)
+                if rs.count and not isinstance(r, Exception):
+                    tmp = []
+                    compare_models(model0, public_model(probe), "probe", tmp)
+                    res["checks"]["seed_sensitive"] = "yes" if tmp else "no"
 
-    def reference(i, clone, data_factory):
-        """a single call of input #i on an untouched copy of the fitted estimator / a freshly fitted estimator"""
+    def reference(i, hinted, clone, data_factory):
+        """a single call of input #i (with the same keywords) on an untouched copy of the fitted estimator / a freshly
+        fitted estimator"""
         if clone is not None:
             ref_est = copy.deepcopy(clone)
         elif sc.claim_seed:
@@ -1337,18 +1580,21 @@ def run_cell(name, ci, ncells, cell, seed, fx, dirs, base):
         else:
             return None
         Xi, kwi = sc.pool[i]()
+        if hinted:
+            kwi = dict(kwi, **keyword_hints(ref_est, tr_name, Xi, kwi))
         o, _ = call(getattr(ref_est, tr_name), Xi, kwi)
         return canon(o)
 
     def check_history(hist, clone, data_factory, label):
         refs = {}
-        for i in sorted({i for _, i, _ in hist}):
-            refs[i] = reference(i, clone, data_factory)
+        for i in sorted({i for _, i, _ in hist}, key=repr):
+            refs[i] = reference(i[0], i[1], clone, data_factory)
         for step, i, c in hist:
             if refs.get(i) is not None and not same(c, refs[i]):
                 viol.append({"kind": "history-differs-from-single-call",
-                             "detail": "%s: call %d of the history %s (input #%d) returned %s, a single call on a fresh fit returns %s%s"
-                                       % (label, step, res["history"], i, brief(c), brief(refs[i]), maxdiff(c, refs[i]))})
+                             "detail": "%s: call %d of the history %s (input #%d%s) returned %s, a single call on a fresh fit returns %s%s"
+                                       % (label, step, res["history"], i[0], " with the keywords describing it" if i[1] else "",
+                                          brief(c), brief(refs[i]), maxdiff(c, refs[i]))})
                 break
 
     hist = []
@@ -1365,12 +1611,24 @@ def run_cell(name, ci, ncells, cell, seed, fx, dirs, base):
         if sc.poison is not None:
             plan += [("poison", 1)]
         plan += [("t", i) for i in range(2, len(pool))] + [("t", 1), ("t", 0)]
+        # keyword phase (transform takes **kwargs or y): the SHORTEST pool input S with keywords describing it, the
+        # longer A with none, A with its keywords, S with none, B
+        hints = [keyword_hints(est, tr_name, Xi, kwi) if not sc.fit_transform_only else {} for Xi, kwi in pool]
+        if any(hints) and len(pool) >= 2:
+            for i, h in enumerate(hints):
+                for a, v in h.items():
+                    W.add("transform keyword %s describing input #%d" % (a, i), v)
+            short = min(range(len(pool)), key=lambda i: (n_items(pool[i][0]), i < 2, i))
+            plan += [("tk", short), ("t", 0), ("tk", 0), ("t", short), ("t", 1)]
+            res["checks"]["keyword_phase"] = ",".join(sorted(hints[short]))
         trf = getattr(est, tr_name)
         for step, (what, i) in enumerate(plan, 1):
-            if what == "t":
-                out = watched_call("%s call %d (input #%d)" % (tr_name, step, i), trf, pool[i][0], pool[i][1])
-                hist.append((step, i, canon(out)))
-                res["history"].append("#%d" % i)
+            if what in ("t", "tk"):
+                kwi = dict(pool[i][1], **hints[i]) if what == "tk" else pool[i][1]
+                tag = "+kw(%s)" % ",".join("%s=%s" % (a, "[%d]" % len(v) if isinstance(v, np.ndarray) else v) for a, v in sorted(hints[i].items())) if what == "tk" else ""
+                out = watched_call("%s call %d (input #%d%s)" % (tr_name, step, i, tag), trf, pool[i][0], kwi)
+                hist.append((step, (i, what == "tk"), canon(out)))
+                res["history"].append("#%d%s" % (i, tag))
             elif what == "fault":
                 kf = 2 if sc.tr_blocks >= 2 else 1
                 with Sabotage(sc.fault_tr, kf):
@@ -1420,12 +1678,15 @@ def run_cell(name, ci, ncells, cell, seed, fx, dirs, base):
                     hist2 = []
                     for step, i in enumerate([1, 0], 1):
                         o = watched_call("%s call %d after the refit (input #%d)" % (tr_name, step, i), getattr(est, tr_name), pool[i][0], pool[i][1])
-                        hist2.append((step, i, canon(o)))
+                        hist2.append((step, (i, False), canon(o)))
                         res["history"].append("#%d" % i)
                     check_history(hist2, clone2, sc.refit_data, "after the refit")
                     res["checks"]["refit_history"] = len(hist2)
     W.check("the end of the scenario", viol)
     res["watched"] = len(W.objs)
+    res["checks"]["params_compared"] = PW.checks
+    res["params_via"] = PW.how
+    res["svd"] = {k: SVD_LOG[k] - svd0[k] for k in SVD_LOG}
     res["wall_s"] = round(time.time() - t0, 2)
     return res
 
